@@ -177,11 +177,11 @@ func evalC03Sub(c c03Sub, o *Obs) error {
 					continue
 				}
 				sameSym := symbolOf(ch) >= 0 && symbolOf(ch) == symbolOf(orig)
-				if sameSym && c.Codec == "bech32" {
-					continue // other-case rendering of the same symbol: may be a valid all-upper string
-				}
 				bb[pos] = ch
 				s := string(bb)
+				if sameSym && c.Codec == "bech32" && (s == asciiLower(s) || s == asciiUpper(s)) {
+					continue // other-case rendering of the same symbol in a string without other letters: a valid rendering
+				}
 				acc := c03ImplAccepts(c.Codec, s) || (c.Codec == "cashaddr" && c03AddrAccepts(c.Prefix, s))
 				if acc {
 					return fmt.Errorf("%s decoder accepts %q: single substitution at payload position %d of valid %q",
@@ -985,6 +985,114 @@ func exhaustiveDistance(ev *Ev, codec string, w int, maxW int, w5 int) {
 	ev.Bulk(fmt.Sprintf("C03:exh-%s-w5-window-%d(weight-3 syndromes streamed)", codec, w5), count.Load(), count.Load())
 }
 
+// ---- kind: case flips of strings with few letters ---------------------------------------------
+// Writing a letter of the payload in the other case is a substitution like any other.  On an ordinary
+// address there are some 35 letters, so changing <= 5 of them always leaves the payload itself in mixed
+// case; a decoder that judges the case of prefix and payload separately is only exposed by a valid string
+// with at most five (CashAddr) / four (bech32) letters in its payload.  Such strings are constructed:
+// all free symbols are digit symbols and two of them are ground until the checksum has few letters.
+
+type c03Case struct {
+	Codec  string `json:"codec"`
+	Prefix string `json:"prefix"`
+	Digits []int  `json:"digits"` // indices into the nine digit symbols, one per free payload symbol
+}
+
+var digitSyms = []byte{5, 7, 10, 15, 17, 20, 21, 26, 30} // 9 8 2 0 3 5 4 6 7
+
+func evalC03Case(c c03Case, o *Obs) error {
+	max, nfree := 5, 32
+	if c.Codec == "bech32" {
+		max, nfree = 4, len(c.Digits)
+	} else if c.Codec != "cashaddr" {
+		return hbug("codec")
+	}
+	if len(c.Digits) < nfree || nfree < 2 || len(c.Prefix) == 0 || len(c.Prefix) > 20 || asciiLower(c.Prefix) != c.Prefix {
+		return hbug("bad case-flip case")
+	}
+	var valid string
+	var letters []int
+	build := func(g1, g2 int) {
+		var syms []byte
+		if c.Codec == "cashaddr" {
+			syms = []byte{0, byte((c.Digits[0] % 4))} // version byte 0 (P2PKH, 160 bits): two forced letters
+		}
+		for i := 0; i < nfree; i++ {
+			syms = append(syms, digitSyms[((c.Digits[i]%9)+9)%9])
+		}
+		syms[len(syms)-2], syms[len(syms)-3] = digitSyms[g1], digitSyms[g2]
+		if c.Codec == "cashaddr" {
+			syms[len(syms)-1] = 20 // '5': three data bits and two zero padding bits
+			valid = c.Prefix + ":" + refCashEncodeSymbols(c.Prefix, syms)
+		} else {
+			valid = refBech32Encode(c.Prefix, syms)
+		}
+		letters = letters[:0]
+		for i := len(c.Prefix) + 1; i < len(valid); i++ {
+			if valid[i] >= 'a' && valid[i] <= 'z' {
+				letters = append(letters, i)
+			}
+		}
+	}
+	found := false
+search:
+	for g1 := 0; g1 < 9; g1++ {
+		for g2 := 0; g2 < 9; g2++ {
+			build(g1, g2)
+			if len(letters) >= 1 && len(letters) <= max {
+				found = true
+				break search
+			}
+		}
+	}
+	if !found {
+		o.Class("C03:few-letters-none-found")
+		return nil
+	}
+	if !c03ImplAccepts(c.Codec, valid) || !c03RefAccepts(c.Codec, valid) {
+		return fmt.Errorf("constructed valid %s string %q is rejected", c.Codec, valid)
+	}
+	o.NT()
+	o.Class("C03:%s-few-letters=%d", c.Codec, len(letters))
+	for mask := 1; mask < 1<<len(letters); mask++ {
+		b := []byte(valid)
+		for k, pos := range letters {
+			if mask>>k&1 == 1 {
+				b[pos] -= 32
+			}
+		}
+		s := string(b)
+		if c03ImplAccepts(c.Codec, s) || (c.Codec == "cashaddr" && c03AddrAccepts(c.Prefix, s)) {
+			return fmt.Errorf("%s decoder accepts %q, which differs from valid %q in %d payload characters (letters written in the other case)",
+				c.Codec, s, valid, bitsSet(mask))
+		}
+	}
+	return nil
+}
+
+func bitsSet(m int) (n int) {
+	for ; m != 0; m &= m - 1 {
+		n++
+	}
+	return
+}
+
+var kC03Case = register(&Kind[c03Case]{Prop: "C03", Name: "caseflip", Eval: evalC03Case,
+	Gen: func(t *rapid.T) c03Case {
+		c := c03Case{Codec: rapid.SampledFrom([]string{"cashaddr", "bech32"}).Draw(t, "codec")}
+		n := 32
+		if c.Codec == "cashaddr" {
+			c.Prefix = genKnownPrefix(t)
+		} else {
+			c.Prefix = rapid.StringMatching("[a-z][a-z0-9]{0,5}").Draw(t, "hrp")
+			n = rapid.IntRange(3, 60).Draw(t, "n")
+		}
+		for i := 0; i < n; i++ {
+			c.Digits = append(c.Digits, rapid.IntRange(0, 8).Draw(t, "d"))
+		}
+		return c
+	}})
+
 func TestC03(t *testing.T) {
 	propTest(t, "C03", func(ev *Ev) {
 		mode := "hook mode: enumeration runs on the implementation's own remainder functions (build tag verif)"
@@ -1015,6 +1123,7 @@ func TestC03(t *testing.T) {
 		t1 := time.Now()
 		kC03Sub.Run(t, ev, perShard(pick(3000, 150000)))
 		kC03Conc.Run(t, ev, perShard(pick(300, 20000)))
+		kC03Case.Run(t, ev, perShard(pick(400, 40000)))
 		t2 := time.Now()
 		if len(ev.violations) > 0 || shard != 0 {
 			return // the enumeration is not seed-dependent: shard 0 runs it on all cores
